@@ -1670,6 +1670,18 @@ fn main_histories(args: &[String]) {
             g.w.pins.clear();
         }
     }
+    if only.is_none() {
+        // mode C: a transaction abandoned by a panic unwinding through it, whatever is abandoned next, a close and a
+        // reopen: the storage it consumed must be back (the property's "no storage space remains consumed")
+        let mut v = vec![];
+        let k = leak_latch_scenarios(&mut master.fork(9_000_000), &mut v);
+        *stats.entry("leak_latch_scenarios".into()).or_default() += k;
+        use std::io::Write;
+        for l in &v {
+            writeln!(f_viol, "{}", l.replace('\n', " ")).unwrap();
+            nviol += 1;
+        }
+    }
     let mut st = String::new();
     for (k, v) in &stats {
         write!(st, "{k}={v} ").unwrap();
@@ -1680,6 +1692,105 @@ fn main_histories(args: &[String]) {
     );
     println!("ops: {st}");
     println!("c05: abandoned_rounds={rounds} nontrivial_rounds={nontrivial} distinct_nontrivial_rounds={}", round_sigs.len());
+}
+
+/// mode C. Returns the number of scenarios run; failures are appended to `viol` (format of rust_viol.txt).
+fn leak_latch_scenarios(r: &mut Rng, viol: &mut Vec<String>) -> u64 {
+    const T: TableDefinition<u64, &[u8]> = TableDefinition::new("leak");
+    let mut n = 0;
+    for variant in 0..5u64 {
+        for page in [512usize, 4096] {
+            n += 1;
+            let label = ["nothing else", "an ordinary transaction aborted", "an ordinary transaction dropped", "a poisoned transaction whose commit is refused", "an ordinary transaction committed and undone"][variant as usize];
+            let be = RecBackend::new();
+            let open = |be: &RecBackend| -> Database {
+                let mut b = Database::builder();
+                b.verif_set_page_size(page);
+                b.create_with_backend(be.handle()).expect("open")
+            };
+            let pages = |db: &Database| -> u64 {
+                for _ in 0..3 {
+                    let t = db.begin_write().unwrap();
+                    t.commit().unwrap();
+                }
+                let t = db.begin_write().unwrap();
+                let a = t.stats().unwrap().allocated_pages();
+                t.abort().unwrap();
+                a
+            };
+            let res = catch(|| -> Result<(u64, u64), String> {
+                let db = open(&be);
+                {
+                    let t = db.begin_write().map_err(|e| e.to_string())?;
+                    {
+                        let mut tab = t.open_table(T).map_err(|e| e.to_string())?;
+                        for k in 0..10u64 {
+                            tab.insert(k, vec![1u8; 20].as_slice()).map_err(|e| e.to_string())?;
+                        }
+                    }
+                    t.commit().map_err(|e| e.to_string())?;
+                }
+                let baseline = pages(&db);
+                let rows = 150 + r.below(200);
+                // abandoned by a panic that unwinds through the live transaction (caught by the application)
+                let _ = catch(|| {
+                    let t = db.begin_write().unwrap();
+                    let mut tab = t.open_table(T).unwrap();
+                    for k in 0..rows {
+                        tab.insert(1000 + k, vec![7u8; 300].as_slice()).unwrap();
+                    }
+                    panic!("application panic with a live write transaction");
+                });
+                match variant {
+                    0 => {}
+                    1 | 2 => {
+                        let t = db.begin_write().map_err(|e| e.to_string())?;
+                        {
+                            let mut tab = t.open_table(T).map_err(|e| e.to_string())?;
+                            tab.insert(5000, vec![2u8; 50].as_slice()).map_err(|e| e.to_string())?;
+                        }
+                        if variant == 1 { t.abort().map_err(|e| e.to_string())? } else { drop(t) }
+                    }
+                    3 => {
+                        let t = db.begin_write().map_err(|e| e.to_string())?;
+                        let _ = catch(|| {
+                            let mut tab = t.open_table(T).unwrap();
+                            let mut seen = 0;
+                            let _ = tab.retain(|_, _| {
+                                seen += 1;
+                                if seen > 3 {
+                                    panic!("predicate panic");
+                                }
+                                true
+                            });
+                        });
+                        if t.commit().is_ok() {
+                            return Err("commit of the poisoned transaction returned Ok".into());
+                        }
+                    }
+                    _ => {
+                        let t = db.begin_write().map_err(|e| e.to_string())?;
+                        { let mut tab = t.open_table(T).map_err(|e| e.to_string())?; tab.insert(6000, vec![3u8; 10].as_slice()).map_err(|e| e.to_string())?; }
+                        t.commit().map_err(|e| e.to_string())?;
+                        let t = db.begin_write().map_err(|e| e.to_string())?;
+                        { let mut tab = t.open_table(T).map_err(|e| e.to_string())?; tab.remove(6000).map_err(|e| e.to_string())?; }
+                        t.commit().map_err(|e| e.to_string())?;
+                    }
+                }
+                drop(db);
+                let db = open(&be);
+                let after = pages(&db);
+                Ok((baseline, after))
+            });
+            match res {
+                Ok(Ok((b, a))) if a == b => {}
+                Ok(Ok((b, a))) => viol.push(format!("h9000000 leak-latch scenario (page {page}): after a write transaction abandoned by a caught panic, then {label}, a close and a reopen, {a} pages are allocated, {b} at baseline: the abandoned work still consumes storage")),
+                Ok(Err(e)) => viol.push(format!("h9000000 leak-latch scenario (page {page}, then {label}): {e}")),
+                Err(p) => viol.push(format!("h9000000 leak-latch scenario (page {page}, then {label}): engine panicked: {}", p.chars().take(200).collect::<String>())),
+            }
+        }
+    }
+    n
 }
 
 // ====================================================================================== mode B: fault points
